@@ -119,7 +119,7 @@ Section SonicFacts.
      establish for bounded and unbounded polynomials alike *)
   Theorem sonic_check_complete g gam h beta n m ck vk (items : list (LPoly * Rand)) cs z chal pf rest :
     sck_g ck = gpowers g 1 beta n -> sck_gamma ck = gpowers gam 1 beta m ->
-    svk_vk vk = {| vk_g := g; vk_gamma_g := gam; vk_h := h; vk_beta_h := h * beta |} ->
+    vk_g (svk_vk vk) = g -> vk_gamma_g (svk_vk vk) = gam -> vk_h (svk_vk vk) = h -> vk_beta_h (svk_vk vk) = h * beta ->
     length cs = length items ->
     Forall (fun it => (length (snd it) <= m)%nat) items ->
     (exists sps, Forall2 (fun cb sp => shift_power vk (snd cb) = Ok sp) cs sps /\
@@ -128,7 +128,7 @@ Section SonicFacts.
     s_open ck items z chal = Ok (pf, rest) ->
     s_check vk cs z (map (fun it => eval (lp_poly (fst it)) z) items) pf chal = Ok (true, rest).
   Proof.
-    intros Hg Hgg Hvk Hl Hr (sps & HF & Hcons) Ho.
+    intros Hg Hgg Hv1 Hv2 Hv3 Hv4 Hl Hr (sps & HF & Hcons) Ho.
     unfold s_open in Ho. destruct chal as [|c0 chal0]; [discriminate|].
     destruct (s_open_loop ck items c0 chal0 [] []) as [[[P R] rest']| |] eqn:El; cbn [bind] in Ho; try discriminate.
     destruct (KZG10.open {| pw_g := sck_g ck; pw_gamma_g := sck_gamma ck |} P z R) as [pf'| |] eqn:Eo; cbn [bind] in Ho; try discriminate.
@@ -142,7 +142,7 @@ Section SonicFacts.
     assert (Lv : length (map (fun it : LPoly * Rand => eval (lp_poly (fst it)) z) items) = length cs) by (rewrite map_length; lia).
     assert (Lc : (length cs <= length chal0)%nat) by lia.
     rewrite (s_acc_spec vk cs _ c0 chal0 0 0 Lv Lc sps HF). cbn [bind].
-    rewrite Hvk. cbn [vk_g vk_gamma_g vk_h vk_beta_h]. rewrite Hl, <- Hrest. f_equal. f_equal. apply FL_eqb.
+    rewrite Hv1, Hv2, Hv3, Hv4. rewrite Hl, <- Hrest. f_equal. f_equal. apply FL_eqb.
     rewrite Hcons.
     (* the weighted sums *)
     assert (E1 : wval (map (fun it => h * (g * eval (lp_poly (fst it)) beta + gam * eval (snd it) beta)) items) c0 chal0 0
